@@ -73,6 +73,11 @@ def judge(case, res, baseline_sha, ld_fails):
                         f"{fe.TIMEOUT}s", observed, "the process exits")
     if fault and res.get("fired") and res.get("fired_in_parent"):
         return "parent-fault-excluded", None
+    if fault and fault[1] == "exit0":
+        # A child calling exit(0) before reporting success is not one of the failures the property
+        # lists (error, panic, allocation failure, signal), and wild has a deliberate instance of
+        # it (save-dir's skip-linking mode). Enumerated and counted, never a verdict.
+        return "child-exit0-excluded", None
     if st and not strace_took_effect(st, res):
         return "strace-not-exactly-one", None
     fired = bool(fault and res.get("fired"))
@@ -156,7 +161,7 @@ def main():
     if chk.args.replay:
         replay(chk, chk.args.replay)
     t0 = time.time()
-    wall_cap = 840 if chk.thorough else 52
+    wall_cap = 800 if chk.thorough else 52
     threads = (4, 1) if chk.thorough else (4,)
     configs = [dict(prog=p, fork=f, threads=t, wmode="default", prior="absent")
                for t in threads for p in ("exe", "so") for f in (True, False)]
@@ -199,7 +204,7 @@ def main():
                 chk.machinery(str(ex))
         plan = natural + firsts + st_cases + rest
         results, not_run = fe.run_plan(plan, wall_cap, t0, seed=chk.seed,
-                                       batch=1000 if chk.thorough else 200)
+                                       batch=500 if chk.thorough else 200)
         # --- evaluate
         classes = collections.Counter()
         by_fault = collections.defaultdict(collections.Counter)
